@@ -49,7 +49,7 @@ PROFILES = {
     "html": {
         "ext": "html", "render": lambda doc, **kw: simple.render_html(doc, **kw),
         "features": FLOW_INLINE | {"run.ins", "run.comment-ref", "container.sdt.inline", "para.heading", "list.flat", "list.nested", "table.simple", "table.multi-para-cell",
-                                   "table.nested", "table.empty-cell", "table.header-rows", "container.section", "container.group", "excluded.header-footer", "excluded.comment"},
+                                   "table.nested", "table.empty-cell", "table.header-rows", "table.ragged", "container.section", "container.group", "excluded.header-footer", "excluded.comment"},
         "table_text_in_full_text": True, "unit_kind": "single", "max_units": 1, "opts": {"inline_removed": [False, False, "script", "style", "noscript"]},
     },
     "mhtml": {
